@@ -35,6 +35,12 @@ void harness(void) {
              if(q < len && tok[q] == 'E') { int s2 = q + 1, d1; if(s2 < len && (tok[s2] == '+' || tok[s2] == '-')) s2++; d1 = s2; while(s2 < len && isdig(tok[s2])) s2++; if(s2 == d1) ok = 0; else q = s2; } }
     e = q; while(e < len && tok[e] == ' ') e++;
     { int ingrammar = ok && (e == len || (usedelims && (tok[e] == ',' || tok[e] == ')')));
+      /* when does the (uninterpreted) conversion report "out of range"?  Tie the flag to the one case where the real libc
+         certainly does -- non-zero mantissa and a positive exponent >= 400 -- so that counterexamples replay on the real build */
+      int k, mant_nz = 0, seenE = 0, eneg = 0, expval = 0, certain;
+      for(k = 0; k < NB; k++) if(k >= p && k < q) { if(tok[k] == 'E') seenE = 1; else if(!seenE && tok[k] >= '1' && tok[k] <= '9') mant_nz = 1; else if(seenE && tok[k] == '-') eneg = 1; else if(seenE && isdig(tok[k]) && expval < 100000) expval = expval * 10 + (tok[k] - '0'); }
+      certain = mant_nz && seenE && !eneg && expval >= 400;
+      if(ingrammar) ASSUME(((convok & 1) == 0) == (certain != 0));
       int onlyblanks = (p == len || (usedelims && (tok[p] == ',' || tok[p] == ')')));
       r = w_read_num(1, tok, usedelims, &idummy, &val, &sev, &pos, &eofbit);
       OBS("tok=[%s] d=%d r=%d sev=%d pos=%ld eof=%d val=%.17g", tok, usedelims, r, sev, pos, eofbit, r ? val : 0.0);
@@ -45,7 +51,8 @@ void harness(void) {
           if(convok & 1) { CHECK(r == 1 && val == V, "conforming REAL is assigned the converted value"); CHECK(sev == SEV_NULL, "conforming REAL raises no error"); }
           else CHECK(sev < SEV_NULL, "REAL outside the double range raises an error (never silently unset)");
 #else
-          CHECK(r == 1 && sev == SEV_NULL, "conforming REAL is accepted without error");
+          if(certain) CHECK(sev < SEV_NULL, "REAL outside the double range raises an error (never silently unset)");
+          else CHECK(r == 1 && sev == SEV_NULL, "conforming REAL is accepted without error");
 #endif
           CHECK(pos == e, "stream is left at the delimiter / end of input after a conforming REAL");
       } else if(!onlyblanks) {
@@ -54,7 +61,7 @@ void harness(void) {
           CHECK(r == 0, "empty value assigns nothing");
       }
 #ifndef NATIVE
-      if(r == 1) CHECK(val == V && seen_n > 0, "an assigned value is the conversion of the characters read, never something else");
+      if(r == 1 && (convok & 1)) CHECK(val == V && seen_n > 0, "an assigned value is the conversion of the characters read, never something else");
 #endif
       if(usedelims) { int k, sn = 0; for(k = 0; k < NB; k++) if(k < pos && k < len && (tok[k] == ',' || tok[k] == ')')) sn = 1; CHECK(!sn, "the delimiter that follows is never consumed"); }
     }
